@@ -17,3 +17,4 @@ import GldapModel.Props.FilterSession
 #print axioms Gldap.C01_filter_faithful
 #print axioms Gldap.C01_search_faithful
 #print axioms Gldap.C01_filter_fix_conservative
+#print axioms Gldap.C01_fix_conservative
